@@ -837,7 +837,7 @@ func runRetry(e *Env) {
 		pending = append(pending, rtArrival{sc: sc, rec: rec, token: token, cons: cons, batch: rq.Header.Opcode == cqlspec.OpBatch})
 	}
 	served := map[*node.SConn]int{} // connections that have carried a request of the workload: step of the first
-	var toClose []*node.SConn        // connections a node decided to close instead of answering
+	var toClose []*node.SConn       // connections a node decided to close instead of answering
 	// closeConn: the node closes a connection; every request of the workload it has not
 	// answered yet is lost with it
 	closeConn := func(sc *node.SConn, fault string) {
